@@ -48,6 +48,36 @@ var seedExpectations = []seedExpect{
 	{"C09-b", "C08", "reset.complete", "Lowerer.localIsPtr"},
 	{"C10-b", "C10", "abort.parser-loop", "skipDirective"},
 	{"C12-b", "C12", "maporder", "writeGlobalVariables"},
+	// second round
+	{"C06-a", "C06", "order.pair", "tryFoldVectorBinaryOp"},
+	{"C03-a", "C03", "shape.indexlen", "getAccessMaxIndex"},
+	{"C03-c", "C15", "shape.indexlen", "getAccessMaxIndex"},
+	{"C04-c", "C04", "guard.agree", "existingLocalInvocationID"},
+	{"C04-c", "C17", "guard.agree", "existingLocalInvocationID"},
+	{"C07-b", "C07", "layout.seethrough", "emitStructMemberDecorations"},
+	{"C07-c", "C02", "layout.seethrough", "emitStructMemberDecorations"},
+	{"C05-b", "C05", "term.lastonly", "blockEndsWithTerminator"},
+	{"C13-c", "C13", "alias.loopstate", "handleSwitch"},
+	{"C06-c", "C06", "conv.signext", "evalConstantIdent"},
+	{"C14-b", "C14", "range.kindlimit", "scalarValueToLiteral"},
+	{"C09-c", "C09", "shape.colvec", "concretizeExpressionToType"},
+	{"C10-c", "C10", "abort.argindex", "lowerTextureGatherCompare"},
+	{"C16-a", "C16", "names.sanitize", "namer.sanitize"},
+	{"C16-c", "C16", "names.sanitize", "namer.sanitize"},
+	{"C16-b", "C16", "names.fresh", "flattenedMemberNames"},
+	{"C19-b", "C19", "lex.tokenchars", "blockComment"},
+	{"C19-b", "C11", "lex.tokenchars", "blockComment"},
+	{"C19-c", "C19", "parse.listloop", "typeSpec"},
+	{"C19-c", "C08", "parse.listloop", "typeSpec"},
+	{"C05-c", "C05", "resolution.siblings", "writeAs"},
+	{"C03-b", "C03", "scalar.narrow", "typeInnerToHLSLStr"},
+	{"C02-a", "C02", "ptrtype.scaware", "emitAccessAsPointer"},
+	{"C18-c", "C18", "arith.roundup", "psvComputeMaskDwordsFromVectors"},
+	{"C02-c", "C02", "reset.complete", "blockDecoratedTypes"},
+	{"C12-c", "C12", "clone.fresh", "LocalVars"},
+	{"C01-c", "C01", "operands.Block.walker", "collectGlobalVarsFromStatements"},
+	{"C17-c", "C17", "operands.Block.walker", "collectGlobalVarsFromStatements"},
+	{"C08-c", "C08", "scope.defafterinit", "collectStmtDeps"},
 }
 
 // overlayFromPatch materialises the files a unified diff touches, patches
